@@ -16,6 +16,8 @@ use std::net::{AddrParseError, Ipv4Addr, Ipv6Addr};
 use std::str::{from_utf8, FromStr};
 
 const ZERO: &str = "0";
+/// The sign that `u16::from_str` tolerates but the protocol does not.
+const PLUS: &str = "+";
 const NEWLINE: &str = "\n";
 const CARRIAGE_RETURN: char = '\r';
 
@@ -156,7 +158,7 @@ fn parse_addresses<'a, T: FromStr<Err = AddrParseError>, I: Iterator<Item = &'a 
         .parse::<T>()
         .map_err(ParseError::InvalidDestinationAddress)?;
 
-    if source_port.starts_with(ZERO) && source_port != ZERO {
+    if (source_port.starts_with(ZERO) && source_port != ZERO) || source_port.starts_with(PLUS) {
         return Err(ParseError::InvalidSourcePort(None));
     }
 
@@ -164,7 +166,9 @@ fn parse_addresses<'a, T: FromStr<Err = AddrParseError>, I: Iterator<Item = &'a 
         .parse::<u16>()
         .map_err(|e| ParseError::InvalidSourcePort(Some(e)))?;
 
-    if destination_port.starts_with(ZERO) && destination_port != ZERO {
+    if (destination_port.starts_with(ZERO) && destination_port != ZERO)
+        || destination_port.starts_with(PLUS)
+    {
         return Err(ParseError::InvalidDestinationPort(None));
     }
 
